@@ -106,9 +106,13 @@ def trainComp (env : Env) (name : String) (e : Expr) (forced isResponse full : B
       pure ⟨{ st with kind := .categoric, levels, contrast := some cm }, m, some (categoricLabels name cm)⟩
     | .offsetVar xs =>
       if isResponse then .error (.valueError "offset() cannot be used as a response term.")
+      -- grouping factor: `kind` is overwritten with "categoric" and `eval_categoric(<Offset>)`
+      -- raises AttributeError
+      else if forced then .error (.unmodelled "offset() as a grouping factor")
       else pure ⟨{ st with kind := .offset }, colOfEntries xs, some [name]⟩
     | .offsetConst q =>
       if isResponse then .error (.valueError "offset() cannot be used as a response term.")
+      else if forced then .error (.unmodelled "offset() as a grouping factor")
       else pure ⟨{ st with kind := .offset, offsetConst := some q },
                  List.replicate n [some q], some [name]⟩
     | .prop ss ts c =>
